@@ -304,3 +304,27 @@ register("C14",
                       nontrivial=lambda case, im: len(case.get("raw", [])) >= 3),
           e2e_part("C14", [("n", {"adversarial": True, "p_err": 0.5, "p_cleanup": 0.5})], _pairs_plan, set(),
                    lambda ur: (ur.impl or "").startswith("ok"), n_quick=100, n_thorough=1000, extra=_c14_extra)])
+
+
+def _c10_part(rep, tier):
+    known = set()
+    n = 3000 if tier == "quick" else 40000
+    streams = [("variants", "perm", ["-seed", seed(), "-n", n, "-maxt", 10])]
+    dis, fails = unit.correspond(rep, "C10", streams, oracle=planner.ORACLES["C10"], nontrivial=_nt_accepted,
+                                 group_oracle=lambda res: planner.group_oracle_c10(res, known))
+    from .common import load_findings
+    for f in load_findings():
+        if f["property"] == "C10" and f["status"] == "known" and f["id"] in known:
+            rep.known.append("%s: %s" % (f["id"], f["what"]))
+            known.discard(f["id"])
+    for k in known:
+        fails.append({"stream": "variants", "why": ["order-dependent acceptance (not a listed finding): " + k]})
+    return dis, fails
+
+
+register("C10",
+         "unit tier: accepted random programs, each with 3 permutations of every argument list, its flattening into one "
+         "set and a split of the Build set into a nested set (bindings follow their concrete type): identical verdict "
+         "and call list required; plus the well-formedness oracle (a program satisfying the documented rules must be "
+         "accepted); non-trivial = accepted base program",
+         [_c10_part, planner_part("C10", _nt_accepted)])
